@@ -249,6 +249,9 @@ pub fn run_prop(ctx: &Ctx, sink: &mut Sink) {
         SysCase { fixed: vec![16_000], mb: false, stack: 8 << 20, n: 1_000_000, s: 0, envc: 0, envlen: 0, groups: vec![(400_000, 7)] },
         SysCase { fixed: vec![3000, 3000], mb: false, stack: 512 << 10, n: 0, s: 0, envc: 0, envlen: 0, groups: vec![(60_000, 3)] },
         SysCase { fixed: vec![5000], mb: false, stack: 8 << 20, n: 0, s: 100_000, envc: 0, envlen: 0, groups: vec![(20_000, 9)] },
+        // an environment that leaves only a few hundred bytes: the budget is what is left, not a comfortable minimum
+        SysCase { fixed: vec![], mb: false, stack: 512 << 10, n: 0, s: 0, envc: 1, envlen: 127_700, groups: vec![(3000, 3)] },
+        SysCase { fixed: vec![], mb: false, stack: 512 << 10, n: 0, s: 0, envc: 1, envlen: 125_000, groups: vec![(3000, 4)] },
         // multi-byte arguments: the budget counts bytes, not characters
         SysCase { fixed: vec![], mb: true, stack: 8 << 20, n: 0, s: 0, envc: 0, envlen: 0, groups: vec![(2500, 2000)] },
         SysCase { fixed: vec![], mb: true, stack: 8 << 20, n: 0, s: 0, envc: 0, envlen: 0, groups: vec![(3, 10), (1, 140_000), (3, 10)] },
